@@ -175,6 +175,8 @@ def _contains(root, node):
 def run(chk):
     cfgs = ["base", "z"]
     chk.configs = cfgs
+    chk.rule("OPTIONS.forwarded", "InflatePaths binds each of its options to the ClipperOffset constructor parameter of the same name (miter_limit and arc_tolerance "
+             "are both doubles: the compiler cannot tell them apart)")
     chk.rule("EMIT.every-path", "OffsetPolygon, OffsetOpenJoined and OffsetOpenPath append a contour to the solution on every path through them (must-pass "
              "dataflow over the structured CFG, sibling calls resolved by fix-point): no path handed to them is dropped by a shortcut")
     chk.rule("THRESHOLD.bisector", "the length below which NormalizeVector gives up (AlmostZero's epsilon) is not above the shortest bisector sum DoSquare can see, "
@@ -233,6 +235,7 @@ def run(chk):
         e12.join_dispatch_table(db, chk, cfg)
         e12.bisector_threshold_rule(db, chk, cfg)
         e12.emit_every_path_rule(db, chk, cfg)
+        e12.inflate_options_rule(db, chk, cfg)
     chk.floor("LOOP", 2 * len(cfgs))
     chk.floor("DELTA.abs-only", 4 * len(cfgs))
     chk.floor("CAP.table", 6 * len(cfgs))
